@@ -254,6 +254,10 @@ def optimize_base_stock_levels(num_nodes=None, node_order_in_system=None, node_o
 		= _preprocess_parameters(num_nodes, node_order_in_system, node_order_in_lists, echelon_holding_cost,
 		lead_time, stockout_cost, demand_mean, demand_standard_deviation, demand_source, network)
 
+	# Base-stock levels to evaluate (if any) are keyed by the caller's node indices: re-index them in the same way.
+	if S is not None:
+		S = {old_to_new_dict[n_ind]: S[n_ind] for n_ind in old_to_new_dict.keys()}
+
 	# Get shortcuts to some parameters (for convenience).
 	N = num_nodes
 	mu = demand_source.demand_distribution.mean()
